@@ -114,7 +114,7 @@ func (m c02mon) Sig(s *sim.Sim, st *sim.Step) string {
 	}
 	pid := st.Act.PID
 	if strings.HasSuffix(flow, "_validate") {
-		pid = subjectPID(st.Rec.SessIn, strings.SplitN(flow, "_", 2)[0])
+		pid = subjectOf(s, st.Rec, strings.SplitN(flow, "_", 2)[0])
 	}
 	u := st.Rec.Before.Users[pid]
 	if !has2FA(s.Cfg, u) {
